@@ -54,9 +54,10 @@ Qed.
 Section Op.
   Variable c : cfg.
   Variable t0 : value -> option Z.
-  Variable l : list sop.
+  Variable FR : value -> Z -> Prop.
+  Hypothesis FR_pre : forall v r, t0 v = Some r -> FR v r.
 
-  Notation Inv := (Inv c t0 l).
+  Notation Inv := (Inv c t0 FR).
   Notation Pset := (Pset t0).
 
   Definition setof (S : value -> Prop) (acc : list value) : value -> Prop := fun v => S v \/ In v acc.
@@ -102,7 +103,7 @@ Section Op.
                  ++ subst w. left. exact HS.
               -- intros w [Hw|Hw]; [left; exact Hw | right; apply in_or_app; left; exact Hw].
             * assert (HnM : ~ setof M acc v). { intros [Hc|Hc]; [exact (HM Hc) | exact (Hacc Hc)]. }
-              pose proof (add_untouched c t0 l _ E _ a v r HI HnM Ety) as HI1.
+              pose proof (add_untouched c t0 FR FR_pre _ E _ a v r HI HnM Ety) as HI1.
               eapply Inv_weaken; [exact HI1 | |].
               -- intros w [Hw|Hw]; [left; left; exact Hw|]. apply in_app_or in Hw. destruct Hw as [Hw|[Hw|[]]].
                  ++ left. right. exact Hw.
@@ -111,7 +112,7 @@ Section Op.
                  ++ left. exact Hw.
                  ++ right. apply in_or_app. left. exact Hw.
                  ++ right. apply in_or_app. right. left. symmetry. exact Hw.
-        - destruct (allocate_value_new c t0 l _ E _ a v a1 HI Ety Eal) as [HI1 [Hm [Hex Hoth]]].
+        - destruct (allocate_value_new c t0 FR _ E _ a v a1 HI Ety Eal) as [HI1 [Hm [Hex Hoth]]].
           split; [|split; [exact Hm | split; [exact Hex | exact Hoth]]].
           eapply Inv_weaken; [exact HI1 | |].
           + intros w [Hw|Hw]; [left; left; exact Hw|]. apply in_app_or in Hw. destruct Hw as [Hw|[Hw|[]]].
@@ -143,7 +144,7 @@ Section Op.
     - split; [|reflexivity]. eapply Inv_weaken; [exact HI | intros v [Hv _]; exact Hv | intros v Hv; exact Hv].
     - inversion Hnd as [|? ? Hn Hd]; subst.
       destruct (Hpre d (or_introl eq_refl)) as [HLd [[r Hr] HE]].
-      destruct (free_inv c t0 l L E M a d r HI HLd Hr HE) as [HI1 Hty1].
+      destruct (free_inv c t0 FR L E M a d r HI HLd Hr HE) as [HI1 Hty1].
       assert (Hpre1 : forall d', In d' t -> delv L d d' /\ (exists r, ty (free_value d a) d' = Some r)
                                   /\ forall w, ~ E d' w /\ ~ E w d').
       { intros d' Hd'. destruct (Hpre d' (or_intror Hd')) as [HL' [Hr' HE']].
@@ -160,7 +161,7 @@ Section Op.
     Inv (setof S acc) E (setof M acc) a ->
     (forall x y, In (x, y) ios ->
         x <> y /\ E x y /\ E y x /\ (forall w, E y w -> w = x) /\ (forall w, E w y -> w = x)
-        /\ ~ M x /\ (S y \/ ~ M y) /\ ~ In y (zconsts c) /\ tied l x y /\ ~ In x acc /\ ~ In y acc) ->
+        /\ ~ M x /\ (S y \/ ~ M y) /\ ~ In y (zconsts c) /\ (forall r, (FR x r -> FR y r) /\ (FR y r -> FR x r)) /\ ~ In x acc /\ ~ In y acc) ->
     NoDup (pairvals ios) ->
     fold_res (fun p a => allocate_values_same_reg [fst p; snd p] a) ios a = Ok a' ->
     Inv (setof S (acc ++ pairvals ios)) E (setof M (acc ++ pairvals ios)) a' /\ mono a a'
@@ -175,7 +176,7 @@ Section Op.
       assert (HMx' : ~ setof M acc x). { intros [Hc|Hc]; [exact (HMx Hc) | exact (Hxacc Hc)]. }
       assert (HLy' : setof S acc y \/ ~ setof M acc y).
       { destruct HSy as [H|H]; [left; left; exact H|]. right. intros [Hc|Hc]; [exact (H Hc) | exact (Hyacc Hc)]. }
-      destruct (same_reg_pair_inv c t0 l _ E _ a x y a1 HI Hne Exy Eyx HEy HEy' HMx' HLy' Hyz Htied Eal)
+      destruct (same_reg_pair_inv c t0 FR FR_pre _ E _ a x y a1 HI Hne Exy Eyx HEy HEy' HMx' HLy' Hyz Htied Eal)
         as [HI1 [Hm1 [[r1 [Hr1x Hr1y]] Hoth1]]].
       assert (HI1' : Inv (setof S (acc ++ [x; y])) E (setof M (acc ++ [x; y])) a1).
       { eapply Inv_weaken; [exact HI1 | |].
@@ -191,7 +192,7 @@ Section Op.
       simpl in Hnd. inversion Hnd as [|? ? Hnx Hnd1]; subst. inversion Hnd1 as [|? ? Hny Hnd2]; subst.
       assert (Hpre1 : forall x' y', In (x', y') t ->
         x' <> y' /\ E x' y' /\ E y' x' /\ (forall w, E y' w -> w = x') /\ (forall w, E w y' -> w = x')
-        /\ ~ M x' /\ (S y' \/ ~ M y') /\ ~ In y' (zconsts c) /\ tied l x' y'
+        /\ ~ M x' /\ (S y' \/ ~ M y') /\ ~ In y' (zconsts c) /\ (forall r, (FR x' r -> FR y' r) /\ (FR y' r -> FR x' r))
         /\ ~ In x' (acc ++ [x; y]) /\ ~ In y' (acc ++ [x; y])).
       { intros x' y' Hin. destruct (Hpre x' y' (or_intror Hin)) as [A1 [A2 [A3 [A4 [A5 [A6 [A7 [A8 [A9 [A10 A11]]]]]]]]]].
         destruct (pairvals_in t x' y' Hin) as [Px Py].
